@@ -94,6 +94,11 @@ CHECKS = {
             "Seeded search over command histories (1-26 commands from a grammar over all twelve commands with valid bodies, each parameter missing, wrong types, malformed JSON, unknown/stale/garbage ids, before open/after close, double open, client waits) x parsing progress (channel bounds, clock tick, short socket reads, schedules). Oracle: exactly one well-formed reply per command naming that command, none unsolicited, ok/err exactly as the session model predicts (open/closed, collect mode, live stream and query ids incl. self-terminating queries judged on frame order), close always answered and a following open succeeds, server loop alive until the client closes. Sampling, not proof.",
             "TCP accept/event loop is the H2 replica; plain files only (archive extraction thread not simulated); liveness = reply within 30000 client polls.",
             "DESIGN.md §6 C15"),
+    "C16": ("remotesim", "exploration",
+            "deterministic simulation: library-level batching simulation of the stream bookkeeping + websocket sessions against a model of the filtered sequence under seeded schedules",
+            "Seeded search, two kinds of runs: (lib) StreamContext::from + process_stream_new_msgs driven like the server loop with arbitrary arrival batchings, chunk sizes and window growth, invariant checked after every call (filtered positions == matching positions below the processed length, window bound for queries, bounded progress); (server) websocket sessions with 1-3 streams/queries (restricted filters with an independent reference predicate, windows empty/beyond the end/overlapping, binary and text), window changes, paged searches over all page sizes/start positions, index lookups: frames per announced id == model window, each once, in order, none before the announcing reply, fields and text equal to the file's, queries terminated, union of pages == matching positions, lookup == first position not before. Sampling, not proof.",
+            "sort:false at server level; time lookups not judged; 'eventually' = after the parser finished plus 300 client polls.",
+            "DESIGN.md §6 C16"),
 }
 
 NOT_APPLICABLE = {
